@@ -467,7 +467,7 @@ fn gen_sweep_directed(rng: &mut vh::Rng) -> (Poly, Option<f32>, u64) {
 
 /// Near-lattice polygons with ulp-sized perturbations plus a nearly retraced twin (growth task ga-c01):
 /// the input class on which the merge-vertex fix-up of `sort_active_edges` runs off the front of the
-/// active list (finding C01-sort-active-edges-merge-underflow).  One case in 16 is the stored witness
+/// active list (finding C01-sort-active-edges-merge-underflow, fixed by lyon 747d7f78: now Err(MergeVertexOutside)).  One case in 16 is the stored witness
 /// itself (default `FillOptions`: even-odd, vertical, tolerance 0.1, intersections handled).
 fn gen_ulp_twin(rng: &mut vh::Rng) -> (Poly, Option<f32>, Option<FillCfg>) {
     use lyon_path::math::point;
@@ -668,6 +668,91 @@ fn sweep_case(ctx: &mut Ctx, max_edges: usize, directed: bool, twin: bool) {
                         o.t("t").u(*a as u64).u(*b as u64).u(*c as u64);
                         orc.check(*a < nv && *b < nv && *c < nv, "sweep/index-valid", "generic", || "triangle uses a vertex not yet emitted".into());
                     }
+                }
+            }
+            CaseOut { imp: o, orcl: orc.verdict }
+        })
+    });
+}
+
+// ---------------------------------------------------------------------------------------------
+// Family `sweepcert:32` (growth task ga-c01): the hypothesis of the theorem
+// `Lyon.C01b.sweep_no_panic_certified` evaluated on every explored case.  The Lean driver replays the
+// modelled run event by event and evaluates the executable winding-conservation certificate `cleanB`
+// (Model/Tess/SweepCert.lean); it answers `cert ok` when the input is not finite, or
+// the certificate is true - then the theorem (valid for every scalar type, f32 included) PROVES that this run of
+// the model - tied bit for bit to the real tessellator by `sweep:32` - can only panic on the intersection
+// assertion or a NaN sort key.  The certificate covers runs through `recover_from_error` (coherence after the
+// recovery is checked).  A finite input with a false certificate (`cert FAIL`) would be a counterexample to
+// winding conservation or to the coherence after a recovery.
+// The real tessellator is run as well: it must not panic.
+fn cert_case(ctx: &mut Ctx) {
+    ctx.case("sweepcert:32", |rng| {
+        let mut tol_override: Option<f32> = None;
+        let mut cfg_override: Option<FillCfg> = None;
+        let mut noix_num = 1u64;
+        let poly = match rng.below(8) {
+            0 => {
+                let (p, tol, cfg) = gen_ulp_twin(rng);
+                tol_override = tol;
+                cfg_override = cfg;
+                noix_num = 0;
+                p
+            }
+            1 | 2 => {
+                let (p, tol, noix) = gen_sweep_directed(rng);
+                tol_override = tol;
+                noix_num = noix;
+                p
+            }
+            3 => gen_sweep_stress(rng),
+            4 => {
+                let (p, tol) = gen_poly_extreme(rng);
+                tol_override = Some(tol);
+                p
+            }
+            _ => gen_poly(rng, 24),
+        };
+        let mut cfg = FillCfg::gen(rng);
+        if let Some(t) = tol_override {
+            cfg.tolerance = t;
+        }
+        if let Some(c) = cfg_override {
+            cfg = c;
+        }
+        // always with intersection handling: without it an intersecting input breaks the flag's documented
+        // precondition and the run may legitimately be uncertifiable (it may even panic)
+        let _ = noix_num;
+        let handle_ix = true;
+        let mut args = Out::new();
+        cfg.put(&mut args);
+        args.b(handle_ix);
+        args.u(poly.subs.len() as u64);
+        for (pts, closed) in &poly.subs {
+            args.u(pts.len() as u64).b(*closed);
+            for p in pts {
+                args.p(*p);
+            }
+        }
+        let tag = format!("cert {} {} {}", poly.kind, ENTRY_NAMES[cfg.entry], if handle_ix { "ix" } else { "noix" });
+        (args, tag, move || {
+            let mut o = Out::new();
+            let mut orc = Oracle::new();
+            o.t("cert").t("ok");
+            if poly.kind == "nonfinite" && !returns_in_time(&poly, &cfg, handle_ix) {
+                orc.skip("nonfinite-input");
+                return CaseOut { imp: o, orcl: orc.verdict };
+            }
+            let mut tess = FillTessellator::new();
+            let mut log = SweepLog::default();
+            let res = std::panic::catch_unwind(std::panic::AssertUnwindSafe(|| run_fill_log(&mut tess, &poly, &cfg, handle_ix, &mut log)));
+            if res.is_err() {
+                if poly.kind == "nonfinite" {
+                    orc.skip("nonfinite-input");
+                } else if handle_ix {
+                    orc.check(false, "sweepcert/no-panic", "generic", || "FillTessellator panicked on finite polygonal input".into());
+                } else {
+                    orc.skip("noix-precondition-violated");
                 }
             }
             CaseOut { imp: o, orcl: orc.verdict }
@@ -1239,6 +1324,11 @@ fn main() {
     let n = ctx.n(400, 60000);
     for _ in 0..n {
         sweep_case(&mut ctx, 24, false, true);
+    }
+    // the winding-conservation certificate of the clean-run theorem on every case (ids after everything else)
+    let n = ctx.n(1500, 60000);
+    for _ in 0..n {
+        cert_case(&mut ctx);
     }
     ctx.finish();
 }
